@@ -140,13 +140,23 @@ def run_case(base, case, acc):
         ref_flux = None
         kw = {}
         if method == "linear moma":
-            refkind = rng.choice(["fba", "pfba"])
+            refkind = rng.choice(["fba", "pfba", "other", "other"])
+            if refkind == "other":
+                # any flux distribution may serve as reference: one that is neither the FBA vertex nor
+                # the pFBA default shows whether the caller's reference is the one that is used
+                ref = gen.other_reference(model, rng)
+                if ref is None:
+                    refkind = "fba"
             if refkind == "fba":
                 ref = model.optimize()
-            else:
+            elif refkind == "pfba":
                 from cobra.flux_analysis import pfba
 
                 ref = pfba(model)
+            if rng.random() < 0.5:
+                ref = gen.reordered_solution(ref, rng)
+                refkind += "/reordered"
+                acc.count("references_in_another_index_order")
             ref_flux = {rid: float(ref.fluxes[rid]) for rid in rxns}
             kw["solution"] = ref
             ident["reference"] = refkind
